@@ -367,7 +367,7 @@ def stress(ctx, builds, rounds, nthreads):
     return None
 
 
-def slow_reader(ctx, builds, okind, nthreads, ncalls, size, delay_ms, pipesz=4096):
+def slow_reader(ctx, builds, okind, nthreads, ncalls, size, delay_ms, pipesz=4096, timer_us=0):
     """free-running threads, output stdout/stderr into an ordinary pipe whose reader starts late and reads slowly, records larger than
     PIPE_BUF: every line that arrives is one whole record of one call (the writers have to wait for room; they must not interleave)"""
     d = drv.Driver(ctx.run, builds["ts-plain"], timeout_ms=120000)
@@ -377,7 +377,9 @@ def slow_reader(ctx, builds, okind, nthreads, ncalls, size, delay_ms, pipesz=409
         ini = gen.render_ini([(b"output", okind.encode()), (b"message_format", b"%{filename}|%{cmdline}"),
                               (b"datasource_message_max_length", b"65535"), (b"log_message_max_length", b"65535")])
         capture = out + "/slow-capture"
-        ops = [drv.op("S", fd, "lazypipe", delay_ms, capture, pipesz), drv.op("C", ini), drv.op("Z", nthreads, 1)]
+        # timer_us: every writer thread is interrupted by its own interval timer (handler with SA_RESTART): a blocked transfer that has
+        # made progress comes back short, several times per record
+        ops = [drv.op("S", fd, "lazypipe", delay_ms, capture, pipesz), drv.op("C", ini)] + ([drv.op("i", timer_us, 1)] if timer_us else []) + [drv.op("Z", nthreads, 1)]
         want = set()
         for t in range(nthreads):
             for k in range(ncalls):
@@ -386,8 +388,8 @@ def slow_reader(ctx, builds, okind, nthreads, ncalls, size, delay_ms, pipesz=409
                 want.add(b"/bin/w%dc%d|w " % (t, k) + arg)
         ops.append(drv.op("y"))
         res = d.scenario(ops)
-        case = {"slow_reader": okind, "threads": nthreads, "calls_each": ncalls, "record_bytes": size, "reader_starts_after_ms": delay_ms, "pipe_bytes": pipesz}
-        ctx.count(("slow-reader", okind, nthreads, size), ["slow-reader:" + okind], sample=case)
+        case = {"slow_reader": okind, "threads": nthreads, "calls_each": ncalls, "record_bytes": size, "reader_starts_after_ms": delay_ms, "pipe_bytes": pipesz, "writer_interrupted_every_us": timer_us}
+        ctx.count(("slow-reader", okind, nthreads, size, timer_us), ["slow-reader:" + okind] + (["slow-reader:transfers-interrupted-by-timer"] if timer_us else []), sample=case)
         if res.timedout or not res.of("y"):
             return {"what": "calls writing to a slowly read %s pipe did not complete (%d threads x %d calls of %d bytes)" % (okind, nthreads, ncalls, size),
                     "observed": {"result": res.describe()}, "case": case}
@@ -488,9 +490,11 @@ def main():
     if v and len(ctx.violations) < 5:
         ctx.violation({"stress": True}, v["observed"], None, v["what"])
     # (d) stdout / stderr into a slowly read pipe, records above PIPE_BUF
-    for okind, nt, nc, size in ([("stderr", 6, 4, 12000), ("stderr", 6, 4, 6000), ("stdout", 6, 4, 9000)] if ctx.quick else
-                                [("stderr", 6, 4, 12000), ("stderr", 6, 4, 6000), ("stdout", 6, 4, 9000), ("stderr", 16, 6, 5000), ("stderr", 4, 10, 30000), ("stdout", 16, 6, 4200)]):
-        v = slow_reader(ctx, builds, okind, nt, nc, size, 400, 4096 if size != 5000 else 65536)
+    for plan in ([("stderr", 6, 4, 12000), ("stderr", 6, 4, 6000), ("stdout", 6, 4, 9000), ("stderr", 2, 3, 40000, 300), ("stdout", 2, 3, 40000, 300)] if ctx.quick else
+                 [("stderr", 6, 4, 12000), ("stderr", 6, 4, 6000), ("stdout", 6, 4, 9000), ("stderr", 16, 6, 5000), ("stderr", 4, 10, 30000), ("stdout", 16, 6, 4200),
+                  ("stderr", 2, 3, 40000, 300), ("stdout", 2, 3, 40000, 300), ("stderr", 4, 4, 60000, 150), ("stdout", 1, 4, 65000, 500)]):
+        okind, nt, nc, size = plan[:4]
+        v = slow_reader(ctx, builds, okind, nt, nc, size, 400, 4096 if size != 5000 else 65536, plan[4] if len(plan) > 4 else 0)
         if v and len(ctx.violations) < 5:
             ctx.violation(v["case"], v["observed"], None, v["what"])
     # (c) non-thread-safe build, single-threaded sequence
